@@ -253,7 +253,7 @@ theorem overload_noError_iff (path : String) (s : Schema) (fuel : Nat) (e : Enti
   simp only [overloadDiags, List.filterMap_eq_nil_iff, NoOverload]
   constructor
   · intro h a ha hr sup hsup hfound
-    have := h (namedAttr s a.name fuel sup, mk path LibErrors.OVERLOADED_ATTR a.line [sArg a.name, sArg sup]) (by
+    have := h (namedAttr s a.name fuel sup, mk path LibErrors.OVERLOADED_ATTR a.line [sArg a.name, sArg (declName sup)]) (by
       simp only [overloadCands, List.mem_flatMap]
       exact ⟨a, ha, by simp [hr]; exact ⟨sup, hsup, rfl, rfl⟩⟩)
     simp [hfound] at this
@@ -1314,6 +1314,7 @@ theorem alg_noError_iff (p : String) (env : Env) (s : Schema) :
 /-- well-formedness of one declaration as far as passes 3 and 4 look -/
 def DeclWF34 (env : Env) (s : Schema) : Decl → Prop
   | .entity e =>
+    e.foreign = true ∨
     ((∀ x ∈ e.supers, isEnt env s x.1 = true) ∧ (∀ n ∈ e.subs, isEnt env s n = true)) ∧
     SubtypesListSuper s e ∧
     (∀ a ∈ e.attrs, TypeRefWF env s a.ty ∧ InverseWF s (fun en an => namedAttr s an (s.decls.length + 1) en = some true) a) ∧
@@ -1327,7 +1328,7 @@ def DeclWF34 (env : Env) (s : Schema) : Decl → Prop
     attribute, redeclarations name a declaring ancestor, domain rules refer to functions and visible attributes -/
 def SchemaWF (env : Env) (s : Schema) : Prop :=
   (∀ d ∈ s.decls, DeclWF34 env s d) ∧ TypeRulesWF s ∧
-  (∀ e ∈ s.entities, NoOverload s (s.decls.length + 1) e ∧ RedeclWF s (s.decls.length + 1) e ∧
+  (∀ e ∈ s.entities, e.foreign = false → NoOverload s (s.decls.length + 1) e ∧ RedeclWF s (s.decls.length + 1) e ∧
     RulesWF env s (s.decls.length + 1) e) ∧
   (∀ f, Decl.func f ∈ s.decls → AlgWF env s f)
 
@@ -1353,7 +1354,11 @@ theorem schema_noError_iff (p : String) (env : Env) (s : Schema)
       cases d with
       | entity e =>
         simp only at a3 a4
-        exact ⟨(superSub_noError_iff p env s e).mp a3, (entityPass4_noError_iff p env s e hlim).mp a4⟩
+        cases hfo : e.foreign with
+        | true => exact Or.inl hfo
+        | false =>
+          simp only [hfo, Bool.false_eq_true, if_false] at a3 a4
+          exact Or.inr ⟨(superSub_noError_iff p env s e).mp a3, (entityPass4_noError_iff p env s e hlim).mp a4⟩
       | type t =>
         simp only at a3 a4
         refine ⟨(typeDecl_noError_iff p env s t).mp a3, ?_⟩
@@ -1365,13 +1370,29 @@ theorem schema_noError_iff (p : String) (env : Env) (s : Schema)
       refine ⟨fun d hd => ?_, fun d hd => ?_⟩
       · have := h d hd
         cases d with
-        | entity e => exact (superSub_noError_iff p env s e).mpr this.1
+        | entity e =>
+          simp only
+          cases hfo : e.foreign with
+          | true => rfl
+          | false =>
+            simp only [Bool.false_eq_true, if_false]
+            rcases this with hf | hw
+            · rw [hfo] at hf; cases hf
+            · exact (superSub_noError_iff p env s e).mpr hw.1
         | type t => exact (typeDecl_noError_iff p env s t).mpr this.1
         | func f => rfl
         | syntaxError a b c => rfl
       · have := h d hd
         cases d with
-        | entity e => exact (entityPass4_noError_iff p env s e hlim).mpr this.2
+        | entity e =>
+          simp only
+          cases hfo : e.foreign with
+          | true => rfl
+          | false =>
+            simp only [Bool.false_eq_true, if_false]
+            rcases this with hf | hw
+            · rw [hfo] at hf; cases hf
+            · exact (entityPass4_noError_iff p env s e hlim).mpr hw.2
         | type t =>
           simp only
           cases hb : t.body with
@@ -1383,12 +1404,14 @@ theorem schema_noError_iff (p : String) (env : Env) (s : Schema)
   constructor
   · rintro ⟨h3, h4, ht, h5, ha⟩
     refine ⟨h34.mp ⟨h3, h4⟩, ht, ?_, ha⟩
-    intro e he
-    exact (entityPass5_noError_iff p env s _ e).mp ((hasError_flatMap_false _ _).mp h5 e he)
+    intro e he hfo
+    exact (entityPass5_noError_iff p env s _ e).mp ((hasError_flatMap_false _ _).mp h5 e
+      (List.mem_filter.mpr ⟨he, by simp [hfo]⟩))
   · rintro ⟨hd, ht, h5, ha⟩
     obtain ⟨h3, h4⟩ := h34.mpr hd
     refine ⟨h3, h4, ht, ?_, ha⟩
-    exact (hasError_flatMap_false _ _).mpr (fun e he => (entityPass5_noError_iff p env s _ e).mpr (h5 e he))
+    exact (hasError_flatMap_false _ _).mpr (fun e he =>
+      (entityPass5_noError_iff p env s _ e).mpr (h5 e (List.mem_filter.mp he).1 (by simpa using (List.mem_filter.mp he).2)))
 
 /-! ### the parse phase -/
 
@@ -1671,14 +1694,15 @@ structure FileWF (f : File) : Prop where
   parse : ∀ s ∈ f.schemas, ParseWF s
   clauses : ∀ s ∈ f.schemas, ClausesWF f s
   imports : ∀ s ∈ liveSchemas f, ImportsWF f ResolveGen.renameUselistFallback s
-  schemas : ∀ s ∈ liveSchemas f, SchemaWF (envOf f ResolveGen.renameUselistFallback s) s
+  schemas : ∀ s ∈ liveSchemas f, SchemaWF (envOf f ResolveGen.renameUselistFallback s) (linked f ResolveGen.renameUselistFallback s)
 
 theorem normSchema_decls_length (s : Schema) : (normSchema s).decls.length = s.decls.length := by
   simp [normSchema]
 
 /-- **the front end accepts a file ⇔ the file is lexically clean and well formed** -/
 theorem file_accepts_iff (f : File) (lex : List Diag)
-    (hlim : ∀ k, ResolveGen.subsuperDepthLimit = some k → ∀ s ∈ f.schemas, s.decls.length < k) :
+    (hlim : ∀ k, ResolveGen.subsuperDepthLimit = some k →
+      ∀ s ∈ liveSchemas f, (linked f ResolveGen.renameUselistFallback s).decls.length < k) :
     (verdict f lex).rejects = false ↔ hasError lex = false ∧ FileWF f := by
   have g1 : LibErrors.gateAfterParse = true := by decide
   have hparse : hasError (parseDiags f) = false ∧ hasError (externalParseDiags f) = false ↔ ∀ s ∈ f.schemas, ParseWF s := by
@@ -1694,22 +1718,20 @@ theorem file_accepts_iff (f : File) (lex : List Diag)
   have hres : hasError (resolveDiags f).diags = false ↔
       hasError (externalParseDiags f) = false ∧ (∀ s ∈ f.schemas, ClausesWF f s) ∧
       (∀ s ∈ liveSchemas f, ImportsWF f ResolveGen.renameUselistFallback s) ∧
-      (∀ s ∈ liveSchemas f, SchemaWF (envOf f ResolveGen.renameUselistFallback s) s) := by
+      (∀ s ∈ liveSchemas f, SchemaWF (envOf f ResolveGen.renameUselistFallback s) (linked f ResolveGen.renameUselistFallback s)) := by
     unfold resolveDiags
     simp only [hasError_append, Bool.or_eq_false_iff, hasError_flatMap_false, pass1_noError_iff, pass2_noError_iff,
       List.mem_map, forall_exists_index, and_imp, forall_apply_eq_imp_iff₂]
-    have hl : ∀ s ∈ liveSchemas f, ∀ k, ResolveGen.subsuperDepthLimit = some k → s.decls.length < k := by
-      intro s hs k hk
-      obtain ⟨s0, hs0, rfl⟩ := List.mem_map.mp hs
-      rw [normSchema_decls_length]; exact hlim k hk s0 (List.mem_filter.mp hs0).1
+    have hl : ∀ s ∈ liveSchemas f, ∀ k, ResolveGen.subsuperDepthLimit = some k →
+        (linked f ResolveGen.renameUselistFallback s).decls.length < k := fun s hs k hk => hlim k hk s hs
     constructor
     · rintro ⟨⟨⟨⟨⟨he, h1⟩, h2⟩, h3⟩, h4⟩, h5⟩
       refine ⟨he, h1, h2, fun s hs => ?_⟩
-      rw [← schema_noError_iff (fileOf f s) _ s (hl s hs)]
+      rw [← schema_noError_iff (fileOf f s) _ _ (hl s hs)]
       simp only [hasError_append, Bool.or_eq_false_iff]
       exact ⟨⟨h3 s hs, h4 s hs⟩, h5 s hs⟩
     · rintro ⟨he, h1, h2, hw⟩
-      have h := fun s hs => (schema_noError_iff (fileOf f s) _ s (hl s hs)).mpr (hw s hs)
+      have h := fun s hs => (schema_noError_iff (fileOf f s) _ _ (hl s hs)).mpr (hw s hs)
       simp only [hasError_append, Bool.or_eq_false_iff] at h
       exact ⟨⟨⟨⟨⟨he, h1⟩, h2⟩, fun s hs => (h s hs).1.1⟩, fun s hs => (h s hs).1.2⟩, fun s hs => (h s hs).2⟩
   simp only [Verdict.rejects, verdict, g1, if_true, Bool.or_eq_false_iff, hasError_append]
